@@ -1,5 +1,6 @@
 //! Property-based verification harness for zombie-einstein/bourse (see /verif/DESIGN.md).
 pub mod checks;
+pub mod decode;
 pub mod dynbook;
 pub mod engine;
 pub mod envcase;
